@@ -11,7 +11,9 @@ func init() {
 }
 
 var vhStepNames = []string{"s1", "s2", "s3", "s4"}
-var vhKeyIDs = []string{"aaaaaaaa11", "bbbbbbbb22", "cccccccc33"}
+
+// distinct key ids; the first two share their first eight characters (the part that appears in link file names)
+var vhKeyIDs = []string{"aaaaaaaa11", "aaaaaaaa22", "cccccccc33"}
 
 func vspecArtsEq(a, b map[string]HashObj) bool {
 	if (a == nil) != (b == nil) || len(a) != len(b) {
